@@ -30,6 +30,16 @@ COLV = z3.Function('FR_COLV', I, I, I, I)
 CELL = z3.Function('FR_CELL', I, I, I, R)
 LABEL = z3.Function('FR_LABEL', I, I, I)
 SUMCOL = z3.Function('FR_SUMCOL', I, I, RowSet, R)
+NUM_OF_LABEL = z3.Function('FR_NUM_OF_LABEL', I, R)
+# label codes of the strings the repository writes into cells
+NAN_LABEL = z3.IntVal(-7001)
+IA = z3.ArraySort(I, I)
+RA = z3.ArraySort(I, R)
+PivotS = sort_named('AnalysisData')
+# pivot_table(index=[i1, i2], columns=cc, values=vv, aggfunc=sum): a function
+# of the set of rows and of the four columns read (as row -> value maps)
+PIVOT = z3.Function('FR_PIVOT_SUM', RowSet, IA, IA, IA, RA, PivotS)
+RESET_INDEX = z3.Function('FR_RESET_INDEX', PivotS, I, PivotS)
 
 ASSUMPTIONS.extend([
     'pandas frames: df.copy(), df[list of columns], df[mask], df.loc[mask] '
@@ -80,19 +90,47 @@ def to_codeset(ex, v, node):
 class VFrame(V):
   kind = 'frame'
 
-  def __init__(self, src, rows):
+  def __init__(self, src, rows, over=()):
     self.src = src
     self.rows = rows
+    # relabelled columns: (column code, function row -> coded value), latest
+    # first; every other cell is that of the source frame
+    self.over = tuple(over)
 
   def flatten(self):
     return [self.src, self.rows]
 
   def clone(self):
-    return VFrame(self.src, self.rows)
+    return VFrame(self.src, self.rows, self.over)
+
+  def colv(self, c, r):
+    """Coded value of column c in row r of THIS frame."""
+    t = COLV(self.src, c, r)
+    for oc, fn in reversed(self.over):
+      t = z3.If(c == oc, fn(r), t)
+    return t
+
+  def cellv(self, c, r):
+    """Numeric value of column c in row r (a relabelled column holds
+    labels: its numeric reading is an unspecified function of the label)."""
+    t = CELL(self.src, c, r)
+    for oc, fn in reversed(self.over):
+      t = z3.If(c == oc, NUM_OF_LABEL(fn(r)), t)
+    return t
 
   def py_getattr(self, ex, name, node):
     if name == 'copy':
-      return VBound(lambda ex_, a, k, n: VFrame(self.src, self.rows))
+      return VBound(lambda ex_, a, k, n: VFrame(self.src, self.rows,
+                                                 self.over))
+    if name == 'drop_duplicates':
+      # keeps one row of every group of equal rows: SOME subset of the rows
+      def dd(ex_, a, k, n):
+        sub = z3.Const(ex_.ctx.sym('dedup.rows'), RowSet)
+        ex_.ctx.assume(z3.IsSubset(sub, self.rows))
+        return VFrame(self.src, sub, self.over)
+      return VBound(dd)
+    if name == 'pivot_table':
+      return VBound(self._pivot_table)
     if name == 'loc':
       return VFLoc(self)
     if name == 'index':
@@ -107,16 +145,87 @@ class VFrame(V):
     labels = to_codeset(ex, args[0], node)
     r = z3.Int(ex.ctx.sym('r'))
     gone = z3.Lambda([r], z3.IsMember(LABEL(self.src, r), labels))
-    return VFrame(self.src, z3.SetDifference(self.rows, gone))
+    return VFrame(self.src, z3.SetDifference(self.rows, gone), self.over)
+
+  def _pivot_table(self, ex, args, kwargs, node):
+    if args or set(kwargs) != {'index', 'columns', 'values', 'aggfunc'}:
+      ex.unsupported(node, 'pivot_table with these arguments')
+    agg = kwargs['aggfunc']
+    if not (getattr(agg, 'what', None) == 'lib' and agg.target == 'numpy.sum'
+            ) and not (isinstance(agg, VStr) and agg.s == 'sum'):
+      ex.unsupported(node, 'pivot_table aggfunc other than sum')
+    idx = kwargs['index']
+    if not (isinstance(idx, VTuple) and len(idx.items) == 2):
+      ex.unsupported(node, 'pivot_table index is not a list of two columns')
+    i1, i2 = (col_term(ex, v, node) for v in idx.items)
+    cc = col_term(ex, kwargs['columns'], node)
+    vv = col_term(ex, kwargs['values'], node)
+    return VOpaque(pivot_term(self, i1, i2, cc, vv), 'AnalysisData')
 
   def py_getitem(self, ex, idx, node):
     if isinstance(idx, VFMask):
       if not idx.frame.src.eq(self.src):
         ex.unsupported(node, 'mask of another frame')
-      return VFrame(self.src, z3.SetIntersect(self.rows, idx.t))
+      return VFrame(self.src, z3.SetIntersect(self.rows, idx.t), self.over)
     if isinstance(idx, (VSeq, VTuple)):
-      return VFrame(self.src, self.rows)        # column projection
+      return VFrame(self.src, self.rows, self.over)        # column projection
     return VFCol(self, col_term(ex, idx, node))
+
+
+def pivot_term(frame, i1, i2, cc, vv):
+  r = z3.Int('r!pv')
+  return PIVOT(frame.rows,
+               z3.Lambda([r], frame.colv(i1, r)),
+               z3.Lambda([r], frame.colv(i2, r)),
+               z3.Lambda([r], frame.colv(cc, r)),
+               z3.Lambda([r], frame.cellv(vv, r)))
+
+
+def relabelled(frame, col, pairs):
+  """The frame with column `col` mapped through the (key, label) pairs;
+  cells with another value become NaN (Series.map)."""
+  def fn(r, frame=frame, col=col, pairs=tuple(pairs)):
+    old = frame.colv(col, r)
+    t = NAN_LABEL
+    for k, lab in pairs:        # a later equal key wins (dict literal)
+      t = z3.If(old == k, lab, t)
+    return t
+  return VFrame(frame.src, frame.rows, frame.over + ((col, fn),))
+
+
+def label_code(s):
+  return colcode('label:' + s)
+
+
+def _store_frame(ex, recv, idx, v, node):
+  """df[col] = <column of the same frame mapped through a dict>"""
+  c = col_term(ex, idx, node)
+  if isinstance(v, VFMapped) and v.col.frame.src.eq(recv.src):
+    # the assigned values are aligned by row label: those of the same rows
+    base = v.col
+    def fn(r, base=base, pairs=v.pairs):
+      old = base.frame.colv(base.col, r)
+      t = NAN_LABEL
+      for k, lab in pairs:        # a later equal key wins (dict literal)
+        t = z3.If(old == k, lab, t)
+      return t
+    return VFrame(recv.src, recv.rows, recv.over + ((c, fn),))
+  ex.unsupported(node, 'column assignment of %s' % v.kind)
+
+
+from mmverif.engine.lib import L as _L  # noqa: E402
+_L[('store.subscript', 'frame')] = _store_frame
+ASSUMPTIONS.extend([
+    'pandas: df[c].unique() holds exactly the values of column c in the '
+    'rows of df; s.map(dict, na_action="ignore") replaces every cell by the '
+    'dict value of its content and by NaN when the content is not a key; '
+    'df[c] = s (s a column of the same rows) replaces column c row by row '
+    'and leaves every other cell; df.drop_duplicates() keeps a subset of the '
+    'rows; df.pivot_table(index=[a, b], columns=c, values=v, aggfunc=sum) is '
+    'a function of the set of rows and of the cells of these four columns; '
+    'reset_index(level=l, inplace=True) replaces the table by a function of '
+    'the table and l',
+])
 
 
 class TFrame(Shape):
@@ -140,7 +249,7 @@ class VFCol(V):
     f = self.frame
     r = z3.Int(ex.ctx.sym('r'))
     return VFMask(f, z3.Lambda([r], z3.And(z3.IsMember(r, f.rows),
-                                           pred(COLV(f.src, self.col, r)))))
+                                           pred(f.colv(self.col, r)))))
 
   def py_getattr(self, ex, name, node):
     if name == 'isin':
@@ -148,6 +257,20 @@ class VFCol(V):
         s = to_codeset(ex_, args[0], n)
         return self._mask(ex_, lambda v: z3.IsMember(v, s))
       return VBound(isin)
+    if name == 'unique':
+      return VBound(lambda ex_, a, k, n: VFUnique(self))
+    if name == 'map':
+      def map_(ex_, args, kwargs, n):
+        m = args[0]
+        if getattr(m, 'map_keys', None) is None:
+          ex_.unsupported(n, 'Series.map with %s' % m.kind)
+        na = kwargs.get('na_action')
+        if set(kwargs) - {'na_action'}:
+          ex_.unsupported(n, 'Series.map options')
+        pairs = [(num_term(k), label_code(v.s))
+                 for k, v in zip(m.map_keys, m.map_vals)]
+        return VFMapped(self, pairs)
+      return VBound(map_)
     ex.unsupported(node, 'column attribute %s' % name)
 
   def py_compare(self, ex, op, other, node):
@@ -160,6 +283,31 @@ class VFCol(V):
   def total(self):
     f = self.frame
     return VReal(SUMCOL(f.src, self.col, f.rows), True)
+
+
+class VFUnique(V):
+  """df[c].unique(): the values occurring in the column."""
+  kind = 'frameunique'
+
+  def __init__(self, col):
+    self.col = col
+
+  def py_contains(self, ex, item, node):
+    if isinstance(item, (VOpt, VNone)):
+      item = ex.need_not_none(item, node, 'value looked up in unique()')
+    f = self.col.frame
+    r = z3.Int(ex.ctx.sym('r'))
+    return z3.Exists([r], z3.And(
+        z3.IsMember(r, f.rows), f.colv(self.col.col, r) == num_term(item)))
+
+
+class VFMapped(V):
+  """df[c].map({k: label, ...}, na_action='ignore')"""
+  kind = 'framemapped'
+
+  def __init__(self, col, pairs):
+    self.col = col
+    self.pairs = tuple(pairs)
 
 
 class VFMask(V):
